@@ -27,6 +27,7 @@ import (
 	"fmt"
 	"math"
 	"os"
+	"runtime/debug"
 	"sort"
 	"strconv"
 	"strings"
@@ -1271,7 +1272,7 @@ func c11genCase(rng *Rng, kind string) []string {
 		k := rng.Range(0, nRows)
 		mergeAt[k] = append(mergeAt[k], m)
 	}
-	row := 0
+	row, prevWidth := 0, 0
 	for i := 0; i < nRows; i++ {
 		lines = append(lines, mergeAt[i]...)
 		if i == 1 {
@@ -1281,17 +1282,15 @@ func c11genCase(rng *Rng, kind string) []string {
 		if rng.Chance(18) {
 			lines = append(lines, c11genBadRow(rng, rich, row, nStyles))
 		}
-		// next valid row: gaps, far rows
+		// next valid row: gaps, far rows. The in-memory API pre-allocates every missing row with the
+		// capacity of the last existing one, so far jumps are only made after a narrow row.
 		switch {
-		case rng.Chance(70):
+		case rng.Chance(70) || prevWidth > 8:
 			row++
 		case rng.Chance(80):
 			row += rng.Range(2, 9)
 		default:
 			row += rng.Pick2([]int{1000, 1000, 3000, 1000, 1000, 500, 2000, 20000})
-		}
-		if i == nRows-1 && rng.Intn(150) == 0 {
-			row = 1048576
 		}
 		col := 1
 		switch {
@@ -1318,6 +1317,7 @@ func c11genCase(rng *Rng, kind string) []string {
 			items = append(items, "n", "n") // trailing nils may run past the grid
 		}
 		lines = append(lines, strings.TrimSpace("setrow "+hx(c11cell(col, row))+" "+c11genOpts(rng, nStyles)+" "+strings.Join(items, " ")))
+		prevWidth = col + len(items)
 		if n > 0 && col+n+2 <= 16384 && rng.Chance(12) {
 			// a merge anchored at the row's last cell, extending over unwritten cells to its right
 			lines = append(lines, "merge "+hx(c11cell(col+n-1, row))+" "+hx(c11cell(col+n+1, row)))
@@ -1419,6 +1419,8 @@ func c11witnesses() [][]string {
 		{"case model 0", "setrow " + hx("A1") + " 0,2000,0,0 i5", "colwidth 1 1 80", "setrow " + hx("A1") + " - i6", "flush"},
 		{"case model 0", "setrow " + hx("A1") + " - i1", "setrow " + hx("A2") + " - i2 RE i3", "setrow " + hx("A2") + " - i4", "flush"},
 		{"case rich 0", "setrow " + hx("A1") + " - s" + hx("_x0041_") + " s" + hx("plain"), "flush"},
+		// the last row of the grid, once per run (the in-memory twin materialises a million row slots)
+		{"case model 1", "setrow " + hx("A1") + " - i1", "setrow " + hx("B1048576") + " 1,60,0,0 i2 s" + hx("last") + " n C1," + hx("A1+1") + ",n", "setrow " + hx("A1048577") + " - i3", "flush"},
 		{"case model 0", "flush"},
 		{"case model 0", "merge " + hx("A1") + " " + hx("B2"), "flush"},
 	}
@@ -1451,12 +1453,16 @@ func runC11(r *Run, rng *Rng, replay string) {
 	for _, w := range c11witnesses() {
 		c11RunCase(r, w)
 	}
+	debug.FreeOSMemory()
 	nModel, nRich, nTable := 260, 110, 12
 	if thorough {
 		nModel, nRich, nTable = 2000, 1000, 60
 	}
 	for i := 0; i < nModel; i++ {
 		c11RunCase(r, c11genCase(rng, "model"))
+		if i%200 == 199 {
+			debug.FreeOSMemory()
+		}
 	}
 	for i := 0; i < nRich; i++ {
 		c11RunCase(r, c11genCase(rng, "rich"))
@@ -1468,11 +1474,11 @@ func runC11(r *Run, rng *Rng, replay string) {
 	chunk := xl.StreamChunkSize
 	vols := []int{chunk - 600000, chunk + 300000, chunk + 900000}
 	if thorough {
-		vols = append(vols, chunk-40000, chunk+40000, 2*chunk+500000, 3*chunk+100000, chunk/2)
+		vols = append(vols, chunk-40000, chunk+40000, 2*chunk+500000, chunk/2)
 	}
 	for i, v := range vols {
-		c := c11RunCase(r, c11genBigCase(rng, v, i%2 == 1))
-		_ = c
+		c11RunCase(r, c11genBigCase(rng, v, i%2 == 1))
+		debug.FreeOSMemory()
 	}
 	for _, s := range r.opsSample(8) {
 		if len(s) > 300 {
